@@ -73,6 +73,39 @@ func Run(path string) ([]Rec, error) {
 	return out, nil
 }
 
+// RunFatal runs the probe in its "fatal" mode: one record through Logger.Fatal / Fatalf, which end the
+// process. It returns the record (File/Line as announced on standard error before the call, Out =
+// everything written to standard output) and the exit status.
+func RunFatal(path, kind, via string) (Rec, int, error) {
+	cmd := exec.Command(path, "fatal", kind, via)
+	var stdout, stderr bytes.Buffer
+	cmd.Stdout, cmd.Stderr = &stdout, &stderr
+	if err := cmd.Start(); err != nil {
+		return Rec{}, 0, err
+	}
+	done := make(chan error, 1)
+	go func() { done <- cmd.Wait() }()
+	select {
+	case <-done:
+	case <-time.After(60 * time.Second):
+		cmd.Process.Kill()
+		return Rec{}, 0, fmt.Errorf("%s fatal: no result within 60 s", path)
+	}
+	var r Rec
+	line, _, _ := strings.Cut(stderr.String(), "\n")
+	if err := json.Unmarshal([]byte(line), &r); err != nil {
+		return Rec{}, 0, fmt.Errorf("%s fatal: unreadable announcement %q: %v", path, stderr.String(), err)
+	}
+	name := filepath.Base(path)
+	if i := strings.Index(name, "-"); i >= 0 {
+		if j := strings.Index(name[i+1:], "-"); j >= 0 {
+			name = name[:i+1+j]
+		}
+	}
+	r.Probe, r.Kind, r.Via, r.Out = name, kind, via, stdout.String()
+	return r, cmd.ProcessState.ExitCode(), nil
+}
+
 // FileOK tells whether rendered names the file the runtime calls file: the whole name, or a tail of
 // it that starts right after a '/' and keeps at least the base name. (Which tail a handler shows -
 // glb shows the last two components - is its choice; a name cut anywhere else is not that file.)
